@@ -65,34 +65,87 @@ Print Assumptions C01_rle_never_overruns.
 
 (** * diskdump / makedumpfile KDUMP *)
 
-(** [_partial]: single-file dumps.  The layout record [dd_wf] fixes
-    [dl_split = false]; split sets are exercised by the tie of C11 and are not
-    covered by this theorem.  Everything else the property quantifies over is
-    covered: header versions 0-6, 32/64-bit headers, both sub-header layouts of
-    32-bit dumps, both byte orders, page sizes 2^12..2^18, one or two bitmaps,
-    any exclusion pattern, any per-page method among raw/zlib/snappy/zstd with
-    arbitrary unknown flag bits, any utsname / VMCOREINFO / notes / eraseinfo
-    bytes. *)
-Theorem C01_diskdump_geometry_partial : forall decompress l pages img,
+(** Everything the property quantifies over for this format: header versions
+    0-6, 32/64-bit headers, both sub-header layouts of 32-bit dumps, both byte
+    orders, page sizes 2^12..2^18, one or two bitmaps, any exclusion pattern,
+    any per-page method among raw/zlib/snappy/zstd with arbitrary unknown flag
+    bits, any utsname / VMCOREINFO / notes / eraseinfo bytes; a whole dump in
+    one file, one member of a split set on its own, and split sets with the
+    files in any order.  (Flattened files are C11's; LZO is not in the build.) *)
+Theorem C01_diskdump_geometry : forall decompress l pages img,
   dd_wf l img -> Forall2 (stores decompress) pages img -> len (encode_dd l pages) < 2^64 ->
   exists st, dd_open (read_files [encode_dd l pages]) 1 = Ok st /\
     dd_be st = dl_be l /\ dd_ptr_size st = (if dl_64 l then 8 else 4) /\
     dd_page_size st = dl_page_size l /\ dd_max_pfn st = dl_max_mapnr l.
 Proof. exact diskdump_geometry. Qed.
-Print Assumptions C01_diskdump_geometry_partial.
+Print Assumptions C01_diskdump_geometry.
 
-Theorem C01_diskdump_roundtrip_partial : forall decompress l pages img,
-  dd_wf l img -> Forall2 (stores decompress) pages img -> len (encode_dd l pages) < 2^64 ->
+Theorem C01_diskdump_roundtrip : forall decompress l pages img,
+  dd_wf l img -> dl_split l = false ->
+  Forall2 (stores decompress) pages img -> len (encode_dd l pages) < 2^64 ->
   exists st, dd_open (read_files [encode_dd l pages]) 1 = Ok st /\
     forall zero_excluded pfn,
       dd_read_page (read_files [encode_dd l pages]) decompress st zero_excluded pfn =
       spec_read_page img (dl_page_size l) (dl_max_mapnr l) zero_excluded pfn.
 Proof. exact diskdump_roundtrip. Qed.
-Print Assumptions C01_diskdump_roundtrip_partial.
+Print Assumptions C01_diskdump_roundtrip.
+
+(** one file of a split set opened on its own: its window's pages, and
+    "not in the dump" for every other page frame *)
+Theorem C01_diskdump_member_roundtrip : forall decompress l pages img,
+  dd_wf l img -> Forall2 (stores decompress) pages img -> len (encode_dd l pages) < 2^64 ->
+  exists st, dd_open (read_files [encode_dd l pages]) 1 = Ok st /\
+    forall zero_excluded pfn,
+      dd_read_page (read_files [encode_dd l pages]) decompress st zero_excluded pfn =
+      spec_read_page (if (win_start l <=? pfn) && (pfn <? win_end l) then img else [])
+                     (dl_page_size l) (dl_max_mapnr l) zero_excluded pfn.
+Proof. exact diskdump_member_roundtrip. Qed.
+Print Assumptions C01_diskdump_member_roundtrip.
+
+(** Split sets.  [ws] lists the PFN windows of the files in the order the
+    files are passed to the library: any list of non-empty, pairwise disjoint
+    windows that together hold every page frame below max_mapnr
+    ([windows_ok]), in any order (the list is arbitrary; see also
+    [C01_diskdump_split_any_order]).  Every file is the same dump with its own
+    window ([with_window]): complete bitmaps, the descriptors and data of its
+    window only.  Opening the set gives the dump's geometry and every page
+    frame reads exactly as from the single-file dump: the image's page, or
+    NODATA / zeroes.  The PFN -> file step is C11's theorem
+    [SplitProofs.owner_spec], composed here with the per-file lookup. *)
+Theorem C01_diskdump_split_roundtrip : forall decompress l ws pages img,
+  ws <> [] ->
+  (forall w, In w ws -> dd_wf (with_window l w) img) ->
+  Forall2 (stores decompress) pages img ->
+  (forall w, In w ws -> len (encode_dd (with_window l w) pages) < 2^64) ->
+  windows_ok ws (dl_max_mapnr l) ->
+  exists st, dd_open (read_files (encode_dd_set l ws pages)) (length ws) = Ok st /\
+    dd_be st = dl_be l /\ dd_ptr_size st = (if dl_64 l then 8 else 4) /\
+    dd_page_size st = dl_page_size l /\ dd_max_pfn st = dl_max_mapnr l /\
+    forall zero_excluded pfn,
+      dd_read_page (read_files (encode_dd_set l ws pages)) decompress st zero_excluded pfn =
+      spec_read_page img (dl_page_size l) (dl_max_mapnr l) zero_excluded pfn.
+Proof. exact diskdump_split_roundtrip. Qed.
+Print Assumptions C01_diskdump_split_roundtrip.
+
+(** the hypotheses on the windows do not depend on the order of the files *)
+Theorem C01_diskdump_split_any_order : forall ws ws' m,
+  Permutation.Permutation ws ws' -> windows_ok ws m -> windows_ok ws' m.
+Proof. exact windows_ok_perm. Qed.
+Print Assumptions C01_diskdump_split_any_order.
+
+(** when is a member layout well-formed: the base layout is, the header
+    version knows split dumps, and the window fits the header's fields *)
+Theorem C01_diskdump_member_wf : forall l img w,
+  dd_wf l img -> 2 <= dl_version l -> fst w < 2^64 -> snd w < 2^64 ->
+  (dl_64 l = false -> dl_version l < 6 -> fst w < 2^32 /\ snd w < 2^32) ->
+  dd_wf (with_window l w) img.
+Proof. exact with_window_wf. Qed.
+Print Assumptions C01_diskdump_member_wf.
 
 (** unaligned, page-crossing ranges through [read_locked]'s page loop *)
-Theorem C01_diskdump_read_range_partial : forall decompress l pages img,
-  dd_wf l img -> Forall2 (stores decompress) pages img -> len (encode_dd l pages) < 2^64 ->
+Theorem C01_diskdump_read_range : forall decompress l pages img,
+  dd_wf l img -> dl_split l = false ->
+  Forall2 (stores decompress) pages img -> len (encode_dd l pages) < 2^64 ->
   exists st, dd_open (read_files [encode_dd l pages]) 1 = Ok st /\
     forall zero_excluded addr n, addr + n <= 2^64 ->
       let '(status, data) := dd_read (read_files [encode_dd l pages]) decompress st zero_excluded addr n in
@@ -104,7 +157,7 @@ Theorem C01_diskdump_read_range_partial : forall decompress l pages img,
           spec_read_page img (dl_page_size l) (dl_max_mapnr l) zero_excluded
                          ((addr + N.of_nat m) / dl_page_size l) = Err status)).
 Proof. exact diskdump_read_range. Qed.
-Print Assumptions C01_diskdump_read_range_partial.
+Print Assumptions C01_diskdump_read_range.
 
 (** the right-hand side above, spelled out *)
 Theorem C01_spec_read_page_meaning : forall img pgsz max_pfn z pfn,
@@ -346,7 +399,7 @@ Proof.
     + split; [discriminate | reflexivity].
     + vm_compute. discriminate.
     + discriminate.
-    + reflexivity.
+    + discriminate.
     + intros _ _ _. discriminate.
     + repeat split.
     + repeat split.
@@ -367,6 +420,43 @@ Example C01_nonvacuous_diskdump :
        dd_read_page (read_files [encode_dd ex_layout ex_pages]) ex_dec st false 9 = Ok (ex_page 255) /\
        dd_read_page (read_files [encode_dd ex_layout ex_pages]) ex_dec st false 3 = Err ERR_NODATA /\
        dd_read_page (read_files [encode_dd ex_layout ex_pages]) ex_dec st true 3 = Ok (zeros 4096)
+   | Err _ => False
+   end).
+Proof. vm_compute. repeat split; reflexivity. Qed.
+
+(** a split set of the same dump: two files, given with the higher window first *)
+Definition ex_windows : list (N * N) := [(5, 11); (0, 5)].
+
+Example C01_nonvacuous_diskdump_split_hyps :
+  windows_ok ex_windows (dl_max_mapnr ex_layout) /\
+  (forall w, In w ex_windows -> dd_wf (with_window ex_layout w) ex_img).
+Proof.
+  split.
+  - repeat split.
+    + intros w [<- | [<- | []]]; reflexivity.
+    + repeat constructor; cbn; intuition discriminate.
+    + intros wi wj [<- | [<- | []]] [<- | [<- | []]] H; try congruence; cbn; lia.
+    + intros pfn H. change (dl_max_mapnr ex_layout) with 11 in H.
+      destruct (N.lt_ge_cases pfn 5).
+      * exists (0, 5). split; [right; now left | cbn; lia].
+      * exists (5, 11). split; [now left | cbn; lia].
+  - intros w Hw. apply with_window_wf.
+    + apply C01_nonvacuous_diskdump_hyps.
+    + discriminate.
+    + destruct Hw as [<- | [<- | []]]; reflexivity.
+    + destruct Hw as [<- | [<- | []]]; reflexivity.
+    + intros _ H. exfalso. revert H. cbn. discriminate.
+Qed.
+
+Example C01_nonvacuous_diskdump_split :
+  (let rd := read_files (encode_dd_set ex_layout ex_windows ex_pages) in
+   match dd_open rd 2 with
+   | Ok st =>
+       (dd_be st, dd_ptr_size st, dd_page_size st, dd_max_pfn st) = (true, 4, 4096, 11) /\
+       dd_read_page rd ex_dec st false 9 = Ok (ex_page 255) /\
+       dd_read_page rd ex_dec st false 1 = Ok (ex_page 7) /\
+       dd_read_page rd ex_dec st false 3 = Err ERR_NODATA /\
+       dd_read_page rd ex_dec st true 6 = Ok (zeros 4096)
    | Err _ => False
    end).
 Proof. vm_compute. repeat split; reflexivity. Qed.
